@@ -60,21 +60,23 @@ func init() {
 			dones   = map[int]func(balancer.DoneInfo){}
 			nextID  int
 		)
-		counter := xdsclient.GetClusterRequestsCounter(fmt.Sprintf("verif-cluster-%d", wrrrandomCases), "")
+		clusterName := fmt.Sprintf("verif-cluster-%d", wrrrandomCases)
+		counter := xdsclient.GetClusterRequestsCounter(clusterName, "")
+		var vb *clusterimpl.VerifBalancer
 		wrr.VerifSetRandInt64n(func(n int64) int64 {
 			bounds = append(bounds, n)
 			if n <= 0 {
 				panic("rand.Int64N called with a non-positive bound")
 			}
-			if len(rands) == 0 {
-				panic("random source exhausted")
+			var r int64 // a missing dictated value counts as 0
+			if len(rands) > 0 {
+				r = rands[0]
+				rands = rands[1:]
 			}
-			r := rands[0]
-			rands = rands[1:]
-			if r < 0 || r >= n {
-				panic(fmt.Sprintf("test error: random value %d outside [0,%d)", r, n))
+			if r < 0 {
+				panic(fmt.Sprintf("test error: negative random value %d", r))
 			}
-			return r
+			return r % n // any dictated value is reduced into the range the code asked for
 		})
 		build := func(mk func() wrr.WRR, ws []int64) wrr.WRR {
 			w := mk()
@@ -176,6 +178,34 @@ func init() {
 				}
 				pk = clusterimpl.VerifNewPicker(dcs, balancer.State{ConnectivityState: st, Picker: verifChildPicker{ok: &childOK}}, ls, c, max)
 				return "ok"
+			case "cfgupd":
+				// the real EDS-update path: handleClusterConfigLocked (dropRequestsPerMillion, dropper
+				// (re)construction, request counter, max_requests) followed by newPickerLocked
+				st := connectivity.Connecting
+				if f[1] == "1" {
+					st = connectivity.Ready
+				}
+				var max *uint32
+				if f[2] != "-" {
+					m := uint32(atou64(f[2]))
+					max = &m
+				}
+				var ds []clusterimpl.VerifDrop
+				if f[3] != "-" {
+					for _, part := range strings.Split(f[3], ",") {
+						q := strings.Split(part, ":")
+						ds = append(ds, clusterimpl.VerifDrop{Category: q[0], Numerator: uint32(atou64(q[1])), Denominator: uint32(atou64(q[2]))})
+					}
+				}
+				if vb == nil {
+					vb = clusterimpl.VerifNewBalancer()
+				}
+				var changed bool
+				pk, changed = vb.ApplyClusterConfig(clusterName, ds, max, balancer.State{ConnectivityState: st, Picker: verifChildPicker{ok: &childOK}}, ls)
+				if vb.Counter() != counter {
+					return "other-counter"
+				}
+				return fmt.Sprintf("ok changed=%v", changed)
 			case "pick":
 				if pk == nil {
 					return "no-picker"
